@@ -235,3 +235,37 @@ fn test_loop_recursion_in_a_loop_with_else_block() {
         "[0, '1']2"
     );
 }
+
+#[test]
+fn test_object_with_failing_display() {
+    use minijinja::value::Object;
+    use std::fmt;
+    use std::sync::Arc;
+
+    #[derive(Debug)]
+    struct Broken;
+
+    impl Object for Broken {
+        fn render(self: &Arc<Self>, f: &mut fmt::Formatter<'_>) -> fmt::Result {
+            f.write_str("<partial>")?;
+            Err(fmt::Error)
+        }
+    }
+
+    let mut env = Environment::new();
+    env.set_auto_escape_callback(|_| minijinja::AutoEscape::Html);
+    let ctx = context! {
+        obj => Value::from_object(Broken),
+        list => vec![Value::from(1), Value::from_object(Broken)],
+    };
+    // neither printing nor stringifying filters or error reports may panic
+    assert_eq!(
+        env.render_str("{{ obj }}|{{ obj|string }}|{{ 'a' ~ obj }}|{{ list }}|{{ [obj]|join(',') }}|{{ obj|upper }}", &ctx)
+            .unwrap(),
+        "&lt;partial&gt;|&lt;partial&gt;|a&lt;partial&gt;|[1, &lt;partial&gt;]|&lt;partial&gt;|&lt;PARTIAL&gt;"
+    );
+    assert_eq!(Value::from_object(Broken).to_string(), "<partial>");
+    assert_eq!(format!("{:?}", Value::from_object(Broken)), "<partial>");
+    let err = env.render_str("{{ obj.missing.attr }}", &ctx).unwrap_err();
+    let _ = format!("{err:#}{err:?}");
+}
